@@ -1,6 +1,6 @@
 """Builds the contract registry used by every engine-A check."""
 from vf.contracts import Registry
-from . import optimisation, kernels, parser
+from . import optimisation, kernels, parser, colors
 
 INLINE = [
     'cm_colors.core.colors:Color._parse', 'cm_colors.core.colors:Color.is_valid', 'cm_colors.core.colors:Color.rgb',
@@ -13,5 +13,6 @@ def build():
     kernels.register(reg)
     parser.register(reg)
     optimisation.register(reg)
+    colors.register(reg)
     reg.mark_inline(*INLINE)
     return reg
